@@ -139,6 +139,8 @@ PROGRAMS += [
 ]
 # a handler / pattern / import name that coincides with an ordinary local of the same function
 PROGRAMS += [
+    "def walrus_in_filter(data):\n    kept=[item for item in data if (last_seen := item)]\n    return kept,last_seen\nprint(walrus_in_filter([1,2]))",
+    "def nested_walrus(rows):\n    grid=[[(last_cell := cell) for cell in row] for row in rows]\n    return grid,last_cell\nprint(nested_walrus([[1,2],[3]]))",
     "def reuse_handler_name():\n    problem='no problem yet'\n    before=problem\n    try:\n        raise ValueError('went wrong')\n    except ValueError as problem:\n        during=str(problem)\n    try:\n        after=problem\n    except NameError:\n        after='cleared'\n    return before,during,after\nprint(reuse_handler_name())",
     "def reuse_pattern_name(subject):\n    captured='initial value'\n    rest_of_mapping={}\n    match subject:\n        case {'key': captured, **rest_of_mapping}:\n            pass\n        case [captured, *rest_of_mapping]:\n            pass\n    return captured,rest_of_mapping\nprint(reuse_pattern_name({'key':1,'other':2}),reuse_pattern_name([1,2,3]),reuse_pattern_name(5))",
     "def reuse_import_name():\n    json='not a module'\n    first=json\n    import json\n    return first,json.dumps([1])\nprint(reuse_import_name())",
